@@ -381,6 +381,13 @@ func (p *Plugin) Start(config pipeline.AnyConfig, params *pipeline.ActionPluginP
 		p.logger.Fatal("can't parse limit_distribution", zap.Error(err))
 	}
 
+	if p.config.BucketsCount < 1 {
+		p.logger.Fatalf("buckets_count must be > 0, passed: %d", p.config.BucketsCount)
+	}
+	if p.config.BucketInterval_ <= 0 {
+		p.logger.Fatalf("bucket_interval must be > 0, passed: %s", p.config.BucketInterval)
+	}
+
 	p.registerMetrics(params.MetricCtl, p.config.LimitDistribution.MetricLabels)
 
 	p.pipeline = params.PipelineName
